@@ -22,6 +22,7 @@ import (
 	"crypto"
 	"errors"
 	"fmt"
+	ssi "github.com/nuts-foundation/go-did"
 	"github.com/nuts-foundation/go-did/did"
 	"github.com/nuts-foundation/nuts-node/crypto/hash"
 	"reflect"
@@ -80,6 +81,9 @@ func (r DIDKeyResolver) ResolveKeyByID(keyID string, metadata *ResolveMetadata, 
 		return nil, err
 	}
 	for _, rel := range relationships {
+		if !hasKeyMaterial(rel) {
+			continue
+		}
 		localKeyId := rel.ID.String()
 		if localKeyId == keyID {
 			return rel.PublicKey()
@@ -128,7 +132,7 @@ func (r DIDKeyResolver) ResolveKey(id did.DID, validAt *time.Time, relationType 
 	if err != nil {
 		return "", nil, err
 	}
-	if len(keys) == 0 {
+	if len(keys) == 0 || !hasKeyMaterial(keys[0]) {
 		return "", nil, ErrKeyNotFound
 	}
 	publicKey, err := keys[0].PublicKey()
@@ -136,6 +140,12 @@ func (r DIDKeyResolver) ResolveKey(id did.DID, validAt *time.Time, relationType 
 		return "", nil, err
 	}
 	return keys[0].ID.String(), publicKey, nil
+}
+
+// hasKeyMaterial tells whether PublicKey() can be called on the relationship's method:
+// go-did dereferences the missing publicKeyJwk of a JsonWebKey2020 method.
+func hasKeyMaterial(rel did.VerificationRelationship) bool {
+	return rel.VerificationMethod != nil && !(rel.Type == ssi.JsonWebKey2020 && rel.PublicKeyJwk == nil)
 }
 
 func resolveRelationships(doc *did.Document, relationType RelationType) (relationships did.VerificationRelationships, err error) {
